@@ -29,6 +29,8 @@ def gen_set(rng, nlang, codes=None):
     codes = codes or rng.sample(CODES, nlang)
     langs = {}
     base = rng.choice([0, 1000000, 3599000000])
+    # instants that are not whole milliseconds (frame times): the sub-millisecond part is dropped, never rounded
+    base += rng.choice([0, 0, 0, 566, 999, 500])
     for li, code in enumerate(codes):
         t = base + rng.choice([0, 0, 500000, 1000000])
         caps = []
